@@ -59,5 +59,5 @@ Sites == [i \in 1..Len(SiteOpsOf) |-> [id |-> "s" \o ToString(i), kind |-> SiteO
 (* emission: one case per explored behaviour, when the traversal is complete *)
 Emit ==
   Done => PrintT(ToJson([marker |-> "CASE", prop |-> "C06", module |-> mod, sites |-> Sites, predicted |-> trace,
-                         decls |-> SetToSeq(decls), uses |-> SetToSeq(uses), opts |-> [DefaultOpts EXCEPT !.enableObjectSlots = eos]]))
+                         decls |-> SetToSeq(decls), uses |-> SetToSeq(uses), imports |-> SetToSeq(imports), helper |-> helper, opts |-> [DefaultOpts EXCEPT !.enableObjectSlots = eos]]))
 =============================================================================
